@@ -1066,6 +1066,8 @@ class OdeSystem(object):
                             # the step that overshot the terminal event is rolled back: drop its interpolant(s)
                             for _ in range(len(self.__sol) - __pre_length):
                                 self.__sol.remove_interpolant(-1)
+                            # the integrator's cached end-of-step slope belongs to the rolled-back step, not to the restart point
+                            self.initialise_integrator(preserve_states=True)
                             self.integrate(roots[-1])
                             self.__int_status = 2
                         else:
